@@ -34,6 +34,18 @@
 (* is available to the DER stage, to names, to the RSA key and to          *)
 (* ExtendedKeyUsage only - and from RFC 5280 / X.690 for everything else:  *)
 (* any other defect of the edited field is fatal.                          *)
+(*                                                                         *)
+(* Exactness.  For the unmutated template the object must carry exactly    *)
+(* the field values the standard library's parser reports for the same     *)
+(* bytes (names, SANs, key usages, EKUs, basic constraints, name           *)
+(* constraints, policies, AIA/OCSP, CRL distribution points, SKI/AKI,      *)
+(* unknown and unhandled-critical extensions, validity, serial, version,   *)
+(* algorithms, public key, signature, raw fields); the field map is in     *)
+(* harness/c11/fields.go.  Deliberate differences of the fork are named:   *)
+(*   D1 the RFC 6962 precertificate-signing EKU 1.3.6.1.4.1.11129.2.4.4    *)
+(*      is ExtKeyUsageCertificateTransparency in the fork (x509.go,        *)
+(*      extKeyUsageOIDs) and an UnknownExtKeyUsage in crypto/x509.         *)
+(* No other difference exists on the explored templates.                   *)
 (***************************************************************************)
 EXTENDS Naturals, Sequences, FiniteSets, TLC
 
